@@ -747,7 +747,7 @@ func init() {
 			"Delegate.NotifyMsg/MergeRemoteState/LocalState, Ping.NotifyPingComplete, Merge.NotifyMerge, Alive.NotifyAlive, Events.NotifyJoin/Update/Leave, Conflict.NotifyConflict, plus replies to " +
 			"queries the node itself has open (application queries, key commands, the name-conflict vote); structure-aware cases: every message kind with arbitrary fields, filters, internal queries, " +
 			"relay envelopes, push/pull bodies, ping payloads, metadata; byte-level cases: random strings and bit-flip/truncate/extend/splice mutations of valid encodings; every case ends with `alive` " +
-			"(Members/Stats/State answer and a fresh user event is still delivered); close-race cases are a SCHEDULE-DEPENDENT search: per round a query is registered as Serf.Query does, a network goroutine delivers matching responses/acks through NotifyMsg while the application calls QueryResponse.Close() at a moment aimed at the end of a delivery (12 000 rounds per case in the quick tier, 4–6 lanes); the replay is the op line with its round count and seed and reproduces with high but not certain probability. Non-trivial: every case (each has ≥ 1 input that decodes past the type byte); distinct = distinct op lists",
+			"(Members/Stats/State answer and a fresh user event is still delivered); close-race cases are a SCHEDULE-DEPENDENT search: per round a query is registered as Serf.Query does, a network goroutine delivers matching responses/acks through NotifyMsg while the application calls QueryResponse.Close() at a moment aimed at the end of a delivery (12 000 rounds per case, 4 lanes); the replay is the op line with its round count and seed and reproduces with high but not certain probability. Non-trivial: every case (each has ≥ 1 input that decodes past the type byte); distinct = distinct op lists",
 		Gen:      c09Gen,
 		Exec:     c09Exec,
 		Isolate:  true,
